@@ -23,6 +23,7 @@ fn counts(rng: &mut Rng, cfg: &PCfg, size: usize) -> Counts {
     let cap = match size {
         0 => 2,
         1 => 5,
+        3 => 2500,
         _ => 14,
     };
     let mut i = rng.below(cap + 1);
